@@ -149,7 +149,9 @@ class C09(Property):
         "probe.real-file-object",
         "probe.pre-advanced-text-with-late-binary",
         "probe.byte-order-mark", "probe.encoding-argument",
-        "probe.pvl-new-entry-points", "probe.pre-advanced-by-next",
+        "probe.pvl-new-entry-points",
+        "probe.no-separator-before-disallowed-byte",
+        "probe.pre-advanced-by-next",
         "probe.pre-advanced-by-readline"]
 
     # ---- one load through one entry point
@@ -416,6 +418,17 @@ class C09(Property):
         sep = rng.choice(seps) if (tail or rng.random() < 0.7) else ""
         if not tail and not sep:
             pass
+        if tail and cfg != "default" and rng.random() < 0.2:
+            # image data right behind END, no separator: the first byte is
+            # one the strict grammar does not allow, so it cannot continue
+            # the END token (ODL/PDS3 allow every ASCII control character)
+            first = rng.choice([b"\x00", b"\x01", b"\x08", b"\x0e", b"\x1f",
+                                b"\x7f"] if cfg == "PVL" else
+                               ["\u00e9".encode(), "\u20ac".encode(),
+                                "\U0001d11e".encode(), b"\xff", b"\x80"])
+            sep = ""
+            tail = first + tail
+            out.inc("probe.no-separator-before-disallowed-byte")
         label = label + sep
         if rng.random() < 0.05:
             # a file an editor saved with a UTF-8 byte order mark: every
@@ -603,8 +616,11 @@ class C09(Property):
         if case.get("header"):
             yield dict(case, header="")
         # shorter tails
+        separated = label[-1:] in ("\n", " ", "\t", ";", "\0")
         for t2 in (b"", tail[:len(tail) // 2], tail[:8], tail[:1],
                    tail[len(tail) // 2:]):
+            if not separated and t2 and t2[:1] != tail[:1]:
+                continue    # the byte right behind END must stay what it is
             if t2 != tail:
                 yield dict(case, data_hex=(lb + t2).hex())
         # fewer label lines (reference recomputed)
